@@ -38,11 +38,23 @@ def plan(tier):
     return [{"n": 8000, "i": i, "strict": i % 2 == 0} for i in range(16)]
 
 
+def ack_distance(ack, seq):
+    """how far behind `ack` the datagram number `seq` lies on the 1..65535 ring (0 = it is the ack number itself);
+    None when it is not within the newest 32"""
+    if ack == seq:
+        return 0
+    d = (ack - seq) % 65535
+    return d if 1 <= d <= 32 else None
+
+
 def oracle(ctx, f, c):
     w = f.w
     ems = rel.emissions_by_send(f)
     # the CONFIGURED message timeouts (from the scenario), not what the live connection objects happen to hold
     timeout = dict(f.timeout_cfg)
+    unique = {}     # emissions are matched to sends by content: (sender, payload) -> number of sends with that payload
+    for r in f.recs:
+        unique[(r["sender"][0], r["payload"])] = unique.get((r["sender"][0], r["payload"]), 0) + 1
     for r in f.recs:
         if "raised" in r or not r.get("connected", True):
             continue
@@ -71,6 +83,20 @@ def oracle(ctx, f, c):
                 elif t - first < timeout[side] - 1e-3:
                     ctx.violation("callback-false-early", "%s: callback(False) at t=%.3f, only %.3f s after its first emission (timeout %.2f)" % (
                         desc, t, t - first, timeout[side]))
+                elif r["retry"] == "NONE" and r["n"] <= f.P and r.get("uid", 0) < 990000 and unique[(side, r["payload"])] == 1:
+                    # "failure only after the timeout elapsed WITHOUT an acknowledgement": an unretried single-datagram send
+                    # travels in exactly the datagrams found on the wire; if the sender accepted, before it reported failure,
+                    # a datagram whose ack number or ack bitmap names one of them, the failure report is untrue
+                    seqs = set(W.parse_header(em.data).seq for em in ems[r["id"]])
+                    for ta, ack, bits in f.watch[side].acks:
+                        if ta >= t - EPS:
+                            break
+                        for sq in seqs:
+                            d = ack_distance(ack, sq)
+                            if ta >= first and d is not None and (d == 0 or bits & (0x80000000 >> (d - 1))):
+                                ctx.violation("callback-false-although-acked", "%s: callback(False) at t=%.3f, but at t=%.3f the sender accepted a "
+                                              "datagram acknowledging datagram %d that carried it (ack=%d bits=%08x)" % (desc, t, ta, sq, ack, bits))
+                    ctx.label("false-callback-checked-against-acks")
         if f.connection_lost:
             continue
         if r["retry"] in ("NONE", "RETRY_ON_TIMEOUT"):
